@@ -743,6 +743,8 @@ func c27MemorySelection(c *Ctx, f *ssa.Function) {
 		f   func(has, ge int64) int64
 	}
 	classify := func(s string) (at, bool) {
+		// prefix⌢start written as a string concatenation is the same bound as the joined byte slice
+		s = strings.ReplaceAll(s, "(p1 + p2)", full)
 		switch s {
 		case "strings.HasPrefix(" + key + ", p1)", cut + "#1":
 			return at{0, func(h, g int64) int64 { return h }}, true
